@@ -60,6 +60,52 @@ TRANSIENT = {
     ("CMSA", "m_initSigma"): "configuration consulted only by init()",
     ("LBFGS", "m_updThres"): "constant 1e-10 assigned by init(); no setter",
     ("compressed_matrix_impl", "m_storage"): "raw view of m_manager's buffers; serialize() re-points it after loading",
+    # --- synthetic classes of the translator self-test (harness/c18_selftest/helper_rebuild.cpp)
+    ("StCacheOk", "m_cache"): "self-test: cache rebuilt by read()", ("StCacheDropped", "m_cache"): "self-test: cache, rebuild dropped",
+    ("StCacheEarly", "m_cache"): "self-test: cache rebuilt before streaming", ("StCacheConst", "m_cache"): "self-test: cache only inspected",
+    ("StCacheView", "m_cache"): "self-test: view re-pointed on loading",
+}
+
+# Transient members that read() legitimately does NOT touch (obligation rebuild_X: every transient member is either
+# referenced by read()/serialize() -- directly or through a non-const member function it calls -- at or after the last
+# streaming statement, or listed here).  key: (declaring OR concrete class, member) -> one line of reason.
+# An entry keyed by the DECLARING class does not cover a derived class that has a member function of its own (other than
+# a constructor) writing the member: such a class makes the member depend on its state and needs an entry of its own.
+REBUILD_NOT_REQUIRED = {
+    # --- feature flags: assigned by the constructors from the class's type and the user-supplied structure; the classes
+    #     whose setters change them (PolynomialKernel, ConcatenatedModel, Rprop) rebuild them in read(), and the harness
+    #     compares the flags of every model / kernel (observable flags.*)
+    ("AbstractModel", "m_features"): "feature flags, assigned by the constructors only (no setter of the class writes them)",
+    ("AbstractKernelFunction", "m_features"): "feature flags, assigned by the constructors only (no setter of the class writes them)",
+    ("AbstractClustering", "m_features"): "feature flags, assigned by the constructors only",
+    ("AbstractOptimizer", "m_features"): "feature flags, assigned by the constructors only (no setter of the class writes them)",
+    ("ProductKernel", "m_features"): "addKernel() (structure building by the user, not state) clears IS_NORMALIZED, a property of the sub-kernel TYPES",
+    # --- raw pointers / references to objects the instance does not own: nothing to rebuild, the user re-supplies them
+    ("LineSearch", "m_function"): "pointer to the external objective function; init() of the owning optimizer sets it again",
+    ("CMA", "mpe_rng"): "pointer to the external random generator (constructor argument)",
+    ("ElitistCMA", "mpe_rng"): "pointer to the external random generator (constructor argument)",
+    ("CMSA", "mpe_rng"): "pointer to the external random generator (constructor argument)",
+    ("IndicatorBasedSteadyStateMOCMA", "mpe_rng"): "pointer to the external random generator (constructor argument)",
+    ("IndicatorBasedMOCMA", "mpe_rng"): "pointer to the external random generator (constructor argument)",
+    ("IndicatorBasedRealCodedNSGAII", "mpe_rng"): "pointer to the external random generator (constructor argument)",
+    ("SMSEMOA", "mpe_rng"): "pointer to the external random generator (constructor argument)",
+    ("DropoutLayer", "mep_rng"): "pointer to the external random generator (constructor argument)",
+    ("BaseNearestNeighbor", "m_algorithm"): "pointer to the external nearest-neighbour algorithm object (constructor argument)",
+    ("GaussianTaskKernel", "m_data"): "reference to the external task data set (constructor argument)",
+    ("GaussianTaskKernel", "mpe_inputKernel"): "pointer to the external input kernel (constructor argument)",
+    ("CrossEntropyMethod", "m_noise"): "user-supplied strategy object (setNoiseType), not derived from streamed members",
+    # --- stateless functor members: nothing to rebuild
+    ("LinearModel", "m_activation"): "empty activation functor of the template parameter type",
+    ("Conv2DModel", "m_activation"): "empty activation functor of the template parameter type",
+    ("NeuronLayer", "m_neuron"): "empty activation functor of the template parameter type",
+    # --- configuration consulted only by init(), which overwrites all streamed state anyway
+    ("CMA", "m_userSetMu"): "user configuration consulted only by init(); not derived from streamed members",
+    ("CMA", "m_userSetLambda"): "user configuration consulted only by init(); not derived from streamed members",
+    ("CMA", "m_initSigma"): "user configuration consulted only by init(); not derived from streamed members",
+    ("CMSA", "m_userSetMu"): "user configuration consulted only by init(); not derived from streamed members",
+    ("CMSA", "m_userSetLambda"): "user configuration consulted only by init(); not derived from streamed members",
+    ("CMSA", "m_initSigma"): "user configuration consulted only by init(); not derived from streamed members",
+    ("LBFGS", "m_updThres"): "constant 1e-10 assigned by init(); not derived from streamed members",
 }
 
 # accessor functions used in stream statements instead of the member: (class, accessor) -> member
@@ -989,6 +1035,11 @@ def translate_class(classes, texts, c):
     res["transient"] = tr
     for m, _ in tr:
         USED_TRANSIENT.add((decl[m], m)); USED_TRANSIENT.add((c.name, m))
+    rf = sides["read"][0]
+    try:
+        res["rebuild"] = rebuild_status(classes, texts, c, res, rf)
+    except Exception as ex:
+        res["rebuild"] = {m: dict(status="untouched", how="translator could not analyse read() (%r)" % ex) for m, _ in tr}
     return res
 
 
@@ -1006,6 +1057,104 @@ def dead_transient_entries(classes):
 def is_serializable(classes, c):
     if any(c.funcs.get(w) for w in ("read", "write", "serialize")): return True
     return False
+
+
+# ------------------------------------------------------------------------------------------------
+# rebuild obligation: derived state (transient members) must be re-established by read()
+
+USED_REBUILD_EXEMPT = set()
+
+
+def mentions(body, m):
+    """body refers to the data member m of THIS object (other objects' members `x.m` / `p->m` do not count)"""
+    t = re.sub(r"\bthis\s*->\s*", "", body)
+    t = re.sub(r"\b[A-Za-z_]\w*(?:\s*<[^;{}()]*?>)?\s*::\s*(?=" + re.escape(m) + r"\b)", "", t)     # base_type::m_x
+    return re.search(r"(?<![\w.>])" + re.escape(m) + r"\b", t) is not None
+
+
+def method_defs(classes, texts, c, name):
+    """all definitions with a body of member function `name` in c or an ancestor: [(owner class, dict)]"""
+    out = []
+    for k in [c] + ancestors(classes, c):
+        cands = list(k.methods.get(name, []))
+        if any(f["body"] is None for f in cands):
+            cands += find_out_of_line(texts or {}, k.name, name)
+        out += [(k, f) for f in cands if f["body"] is not None]
+    return out
+
+
+def setter_writers(classes, texts, c, m, below=None):
+    """non-constructor, non-const member functions (other than read/serialize) of c and of its ancestors strictly below
+    the class `below` whose body refers to m"""
+    out = []
+    for k in [c] + ancestors(classes, c):
+        if below is not None and k.name == below: break
+        for nm, fs in sorted(k.methods.items()):
+            if nm in (k.name, "~" + k.name, "read", "write", "serialize", "swap") or nm.startswith("operator"): continue
+            for owner, f in method_defs(classes, texts, k, nm):
+                if owner is k and not f["const"] and mentions(f["body"], m):
+                    out.append("%s::%s" % (k.name, nm)); break
+    return sorted(set(out))
+
+
+def read_touches(classes, texts, c, f, members):
+    """source-level reading: which of `members` does the read()/serialize() body f refer to -- directly, or through a
+    non-const member function it calls (followed 4 levels deep) -- at or after the LAST streaming statement?
+    returns {member: how}"""
+    ar = archive_name(f)
+    stmts = parse_stmts(f["body"])
+    txt = [json.dumps(st) for st in stmts]
+    idx = [i for i, t in enumerate(txt) if re.search(r"\b" + re.escape(ar) + r"\b", t)]
+    if idx:
+        L = idx[-1]
+        after = txt[L:] if stmts[L][0] in ("for", "if") else txt[L + 1:]      # a compound statement may stream AND rebuild
+    else:
+        after = txt
+    after = " ".join(after)
+    res = {}
+    def follow(text, depth, seen, via):
+        for m in members:
+            if m not in res and mentions(text, m):
+                res[m] = ("referenced after the last streaming statement" if not via else "written by %s, called after the last streaming statement" % " -> ".join(via))
+        if depth >= 4: return
+        for nm in sorted(set(re.findall(r"(?<![\w.>])([A-Za-z_]\w*)\s*(?:<[^;{}()]*?>\s*)?\(", re.sub(r"\bthis\s*->\s*", "", text)))):
+            if nm in seen or nm in ("if", "for", "while", "switch", "return", "sizeof"): continue
+            defs = [(k, g) for k, g in method_defs(classes, texts, c, nm) if not g["const"]]
+            if not defs: continue
+            for k, g in defs:
+                follow(g["body"], depth + 1, seen | {nm}, via + ["%s::%s()" % (k.name, nm)])
+    follow(after, 0, frozenset(), [])
+    return res
+
+
+def rebuild_status(classes, texts, c, r, f):
+    """r["rebuild"]: member -> dict(status = rebuilt | exempt | untouched, how)"""
+    decl = r["member_decl"]
+    tr = [m for m, _ in r["transient"]]
+    touched = read_touches(classes, texts, c, f, tr) if (f is not None and tr) else {}
+    out = {}
+    for m in tr:
+        if m in touched:
+            out[m] = dict(status="rebuilt", how=touched[m]); continue
+        own = REBUILD_NOT_REQUIRED.get((c.name, m))
+        if own is not None:
+            USED_REBUILD_EXEMPT.add((c.name, m))
+            out[m] = dict(status="exempt", how=own); continue
+        gen = REBUILD_NOT_REQUIRED.get((decl.get(m), m))
+        if gen is not None:
+            w = setter_writers(classes, texts, c, m, below=decl.get(m))
+            if not w:
+                USED_REBUILD_EXEMPT.add((decl.get(m), m))
+                out[m] = dict(status="exempt", how=gen); continue
+            out[m] = dict(status="untouched", how="%s writes it outside the constructors (state-dependent), read() does not re-establish it; the allow-list entry of %s does not cover this class" % (", ".join(w), decl.get(m)))
+            continue
+        out[m] = dict(status="untouched", how="read() never refers to it at or after the last streaming statement, nor does a non-const member function it calls")
+    return out
+
+
+def dead_rebuild_entries(classes):
+    """allow-list entries that name a class present in the tree but exempt no transient member of any translated class"""
+    return sorted("%s::%s" % k for k in REBUILD_NOT_REQUIRED if k not in USED_REBUILD_EXEMPT and k[0] in classes)
 
 
 def ident(name):
@@ -1074,6 +1223,14 @@ def emit_coq(r, classes_fields, nestable=None, owner=None):
     L.append("Theorem rw_%s : read_fields_%s = write_fields_%s.\nProof. reflexivity. Qed." % (X, X, X))
     L.append("Theorem cover_%s : covers members_%s write_fields_%s transient_%s = true.\nProof. vm_compute. reflexivity. Qed." % (X, X, X, X))
     L.append("Theorem stale_%s : transient_ok members_%s write_fields_%s transient_%s = true.\nProof. vm_compute. reflexivity. Qed." % (X, X, X, X))
+    rb = r.get("rebuild", {})
+    L.append("(* derived state: every transient member is re-established by read() (referenced, or written by a non-const member")
+    L.append("   function read() calls, at or after the last streaming statement) or exempt (tools/translate_serial.py REBUILD_NOT_REQUIRED):")
+    for m, _ in r["transient"]: L.append("     %s : %s -- %s" % (m, rb.get(m, {}).get("status", "?"), rb.get(m, {}).get("how", "").replace("*)", "* )").replace("(*", "( *")))
+    L.append("*)")
+    L.append("Definition rebuilt_%s : list string :=\n  %s." % (X, lst([coq_str(m) for m, _ in r["transient"] if rb.get(m, {}).get("status") == "rebuilt"])))
+    L.append("Definition rebuild_exempt_%s : list string :=\n  %s." % (X, lst([coq_str(m) for m, _ in r["transient"] if rb.get(m, {}).get("status") == "exempt"])))
+    L.append("Theorem rebuild_%s : forallb (fun m => orb (mem m rebuilt_%s) (mem m rebuild_exempt_%s)) transient_%s = true.\nProof. vm_compute. reflexivity. Qed." % (X, X, X, X))
     if r["problems"]:
         L.append("(* the translator reported a problem with this class: an obligation that cannot be discharged *)")
         L.append("Theorem translator_ok_%s : %s = \"\".\nProof. reflexivity. Qed." % (X, coq_str("; ".join(r["problems"]))[:400].rstrip('"') + '"'))
@@ -1219,19 +1376,9 @@ def _this_root(n):
 
 def ast_class(repo, cname, rel, includes, tmpdir):
     """(fields, read_roots, write_roots) of class cname according to clang, or (None, reason)"""
-    import subprocess
-    os.makedirs(tmpdir, exist_ok=True)
-    tu = os.path.join(tmpdir, "ast_%s.cpp" % cname)
-    src = os.path.join(repo, rel)
-    open(tu, "w").write('#include "%s"\n' % src)
-    cmd = ["clang++", "-std=gnu++11", "-fopenmp", "-DNDEBUG", "-w", "-fsyntax-only"] + includes + \
-          ["-Xclang", "-ast-dump=json", "-Xclang", "-ast-dump-filter=" + cname, tu]
-    try:
-        p = subprocess.run(cmd, capture_output=True, text=True, timeout=300)
-    except Exception as ex:
-        return None, "clang failed: %r" % ex
-    if not p.stdout.strip():
-        return None, "clang produced no AST (%s)" % p.stderr[-300:]
+    objs, why = _clang_dump(repo, cname, rel, includes, tmpdir, tag="ast")
+    if objs is None:
+        return None, why
     fields = []; rw = {"read": [], "write": []}
     methods = {}          # member functions of the class with a body: name -> [decl]  (helpers that read/write delegate to)
     def has_body(c):
@@ -1285,7 +1432,7 @@ def ast_class(repo, cname, rel, includes, tmpdir):
                 if want not in ptypes: continue
                 rw[c["name"]].append(roots_of(c))
     ool = []; ool_helpers = []
-    for o in _json_stream(p.stdout):
+    for o in objs:
         k = o.get("kind"); nm = o.get("name")
         if k == "ClassTemplateDecl" and nm == cname:
             for rec in o.get("inner", []) or []:
@@ -1349,4 +1496,144 @@ def ast_crosscheck(repo, results, includes, tmpdir, only=None, jobs=4, tus=None)
             if a != t:
                 msgs.append("%s roots: clang %s, translator %s" % (side, a, t))
         rep.append((c, not msgs, "; ".join(msgs)))
+    return rep
+
+
+# ------------------------------------------------------------------------------------------------
+# rebuild obligation, read from clang's AST (the authoritative reading; the source-level one above feeds the Coq file)
+
+# translation unit to parse for a class whose defining header is not self-contained
+REBUILD_TUS = {"compressed_matrix_impl": "include/shark/LinAlg/Base.h"}
+
+
+_DUMP_CACHE = {}
+
+
+def _clang_dump(repo, cname, rel, includes, tmpdir, tag="rb"):
+    """clang's JSON AST of the declarations whose name contains cname in a TU that includes repo/rel (cached per process:
+    the member cross-check and the rebuild check read the same dump)"""
+    import subprocess
+    key = (os.path.realpath(repo), cname, rel, tuple(includes))
+    if key in _DUMP_CACHE: return _DUMP_CACHE[key]
+    os.makedirs(tmpdir, exist_ok=True)
+    tu = os.path.join(tmpdir, "%s_%s.cpp" % (tag, cname))
+    open(tu, "w").write('#include "%s"\n' % os.path.join(repo, rel))
+    cmd = ["clang++", "-std=gnu++11", "-fopenmp", "-DNDEBUG", "-w", "-fsyntax-only"] + includes + \
+          ["-Xclang", "-ast-dump=json", "-Xclang", "-ast-dump-filter=" + cname, tu]
+    try:
+        p = subprocess.run(cmd, capture_output=True, text=True, timeout=300)
+    except Exception as ex:
+        return None, "clang failed: %r" % ex
+    if not p.stdout.strip():
+        return None, "clang produced no AST (%s)" % p.stderr[-300:]
+    _DUMP_CACHE[key] = (list(_json_stream(p.stdout)), None)
+    return _DUMP_CACHE[key]
+
+
+def ast_rebuild(repo, cname, rel, includes, tmpdir, members):
+    """({member: how} for the members of `members` that read()/serialize() of class cname refers to -- directly or through a
+    non-const member function of the class it calls -- at or after the last statement that uses the archive), reason"""
+    objs, why = _clang_dump(repo, cname, rel, includes, tmpdir)
+    if objs is None: return None, why
+    def has_body(c):
+        return any(x.get("kind") == "CompoundStmt" for x in c.get("inner", []) or [])
+    records = []; methods = {}; readers = []
+    def add_method(md):
+        if md.get("kind") == "CXXMethodDecl" and has_body(md) and md.get("name"):
+            methods.setdefault(md["name"], []).append(md)
+    def scan_record(rec):
+        records.append(rec)
+        for c in rec.get("inner", []) or []:
+            if c.get("kind") == "FunctionTemplateDecl":
+                for md in c.get("inner", []) or []: add_method(md)
+            add_method(c)
+    ool = []
+    for o in objs:
+        k = o.get("kind"); nm = o.get("name")
+        if k == "ClassTemplateDecl" and nm == cname:
+            for rec in o.get("inner", []) or []:
+                if rec.get("kind") == "CXXRecordDecl": scan_record(rec)       # the template pattern (not its instantiations)
+        elif k == "CXXRecordDecl" and nm == cname:
+            scan_record(o)
+        elif k == "CXXMethodDecl" and has_body(o):
+            ool.append(o)
+        elif k == "FunctionTemplateDecl":
+            ool += [md for md in o.get("inner", []) or [] if md.get("kind") == "CXXMethodDecl" and has_body(md)]
+    ids = set(r.get("id") for r in records)
+    for md in ool:
+        if md.get("parentDeclContextId") in ids: add_method(md)
+    def is_const(md):
+        return md.get("type", {}).get("qualType", "").rstrip().endswith("const")
+    def is_reader(md):
+        ps = [x for x in md.get("inner", []) or [] if x.get("kind") == "ParmVarDecl"]
+        if not ps: return False
+        t0 = ps[0].get("type", {}).get("qualType", "")
+        if md["name"] == "read": return "InArchive" in t0 or "iarchive" in t0
+        if md["name"] == "serialize": return len(ps) == 2 and "Archive" in t0
+        return False
+    readers = [md for nm in ("read", "serialize") for md in methods.get(nm, []) if is_reader(md)]
+    if not readers:
+        return None, "clang found no read()/serialize() definition of %s" % cname
+    def refs_of(node, depth, seen, via, out):
+        """member names referred to through `this` in node, following calls of non-const member functions of the class"""
+        def visit(n):
+            r = _this_root(n)
+            if r:
+                out.setdefault(r, "referenced" + (" in " + " -> ".join(via) if via else ""))
+                if depth < 4 and r in methods and r not in seen:
+                    for md in methods[r]:
+                        if not is_const(md):
+                            refs_of(md, depth + 1, seen | {r}, via + [r + "()"], out)
+        _walk(node, visit)
+    best = {}
+    for md in readers:
+        ar_ids = set(x.get("id") for x in md.get("inner", []) or [] if x.get("kind") == "ParmVarDecl")
+        body = [x for x in md.get("inner", []) or [] if x.get("kind") == "CompoundStmt"][0]
+        stmts = [x for x in body.get("inner", []) or [] if isinstance(x, dict)]
+        def uses_archive(n):
+            hit = [False]
+            def v(x):
+                if x.get("kind") == "DeclRefExpr" and x.get("referencedDecl", {}).get("id") in ar_ids: hit[0] = True
+            _walk(n, v)
+            return hit[0]
+        idx = [i for i, st in enumerate(stmts) if uses_archive(st)]
+        if idx:
+            L = idx[-1]
+            compound = stmts[L].get("kind") in ("ForStmt", "CXXForRangeStmt", "IfStmt", "WhileStmt", "CompoundStmt", "DoStmt", "SwitchStmt")
+            after = stmts[L:] if compound else stmts[L + 1:]
+        else:
+            after = stmts
+        out = {}
+        for st in after: refs_of(st, 0, frozenset(), [], out)
+        got = {m: out[m] + " at or after the last statement that uses the archive" for m in members if m in out}
+        if len(got) >= len(best): best = got
+    return best, None
+
+
+def ast_rebuild_check(repo, results, includes, tmpdir, jobs=4, tus=None):
+    """for every class with a transient member that is not merely exempt: does clang's AST confirm the source-level reading
+    (rebuilt / untouched)?  returns list of (class, member, source status, ast touched or None, message)"""
+    import shutil
+    from concurrent.futures import ThreadPoolExecutor
+    todo = []
+    for r in results:
+        ms = [m for m, d in r.get("rebuild", {}).items() if d["status"] != "exempt"]
+        if ms: todo.append((r, ms))
+    if not todo: return []
+    if shutil.which("clang++") is None:
+        return [(r["name"], m, r["rebuild"][m]["status"], None, "clang++ not available") for r, ms in todo for m in ms]
+    def rel_of(r):
+        if tus and r["name"] in tus: return tus[r["name"]]
+        if r["name"] in REBUILD_TUS: return REBUILD_TUS[r["name"]]
+        src = r.get("read_src", "")
+        f = src.split(":")[0] if src and not src.startswith("none") else os.path.relpath(r["file"], repo)
+        return f if f.endswith(".cpp") else os.path.relpath(r["file"], repo)
+    with ThreadPoolExecutor(max_workers=jobs) as ex:
+        outs = list(ex.map(lambda t: ast_rebuild(repo, t[0]["name"], rel_of(t[0]), includes, tmpdir, t[1]), todo))
+    rep = []
+    for (r, ms), (got, why) in zip(todo, outs):
+        for m in ms:
+            st = r["rebuild"][m]["status"]
+            if got is None: rep.append((r["name"], m, st, None, why))
+            else: rep.append((r["name"], m, st, m in got, got.get(m, "clang: read()/serialize() of %s never refers to %s at or after the last statement that uses the archive, nor does a non-const member function it calls" % (r["name"], m))))
     return rep
